@@ -21,8 +21,8 @@ Definition sig_allowed_alg : list str := [(s2l "http://www.w3.org/2000/09/xmldsi
 
 (* does the urlencode each module imported leave '~' unescaped? (measured over all bytes) *)
 Definition pack_urlencode_tilde_safe : bool := true.
-Definition sigver_urlencode_tilde_safe : bool := false.
+Definition sigver_urlencode_tilde_safe : bool := true.
 
 (* does RSACrypto.get_signer hand out the module-level signer object and store the caller's key on it?
    (measured with sentinel keys on every algorithm) *)
-Definition get_signer_returns_shared_object : bool := true.
+Definition get_signer_returns_shared_object : bool := false.
